@@ -24,7 +24,8 @@ RefReply(outcomes) == [i \in 1..Len(outcomes) |-> Entry(outcomes[i])]
 (* Implementation-shaped reply: one message queue per request; a refused command  *)
 (* reports its error text and discards whatever is queued (repaired code: before,  *)
 (* the pushed line stayed queued); a successful command pushes its lines and then   *)
-(* reports the *head* of the queue (or "empty").                                   *)
+(* reports the *head* of the queue (or "empty") and discards the rest (repaired:    *)
+(* before, the rest stayed queued and became the entries of later commands).        *)
 RECURSIVE ImplFrom(_, _, _)
 ImplFrom(outcomes, i, queue) ==
   IF i > Len(outcomes) THEN <<>>
@@ -32,7 +33,19 @@ ImplFrom(outcomes, i, queue) ==
            q == queue \o o.lines
        IN IF Refused(o) THEN <<o.msg>> \o ImplFrom(outcomes, i + 1, <<>>)
           ELSE IF q = <<>> THEN <<"empty">> \o ImplFrom(outcomes, i + 1, q)
-          ELSE <<Head(q)>> \o ImplFrom(outcomes, i + 1, Tail(q))
+          ELSE <<Head(q)>> \o ImplFrom(outcomes, i + 1, <<>>)
+
+(* the code before the second repair: the rest of the queue stays *)
+RECURSIVE ImplFromOld(_, _, _)
+ImplFromOld(outcomes, i, queue) ==
+  IF i > Len(outcomes) THEN <<>>
+  ELSE LET o == outcomes[i]
+           q == queue \o o.lines
+       IN IF Refused(o) THEN <<o.msg>> \o ImplFromOld(outcomes, i + 1, <<>>)
+          ELSE IF q = <<>> THEN <<"empty">> \o ImplFromOld(outcomes, i + 1, q)
+          ELSE <<Head(q)>> \o ImplFromOld(outcomes, i + 1, Tail(q))
+ImplReplyOld(outcomes) == ImplFromOld(outcomes, 1, <<>>)
+HasMultiPush(outcomes) == \E i \in 1..Len(outcomes) : ~Refused(outcomes[i]) /\ Len(outcomes[i].lines) > 1
 
 ImplReply(outcomes) == ImplFrom(outcomes, 1, <<>>)
 
